@@ -59,7 +59,8 @@ def run(ctx):
     texts += [G.corrupt_doc(rng, D.render(rng, D.document(rng))) for _ in range(ctx.n(2000, 30000))]
     texts += ['License-1: a\nLicense: b\nLicense: c\n', 'Files: x\nFiles-1: y\nFiles: z', 'Files: a\nExtra-Data: x\n',
               'Files: a\nLine-Numbers-By-Field: x\n', 'Content-Type: multipart/mixed; boundary="x"\n\n--x\n\nbody\n--x--\n',
-              'Content-Type: message/rfc822\n\na: b\n', '', '\n', ' ', 'a', ':', 'License:\n\nUnknown:', 'Foo:\n\nBar:\n']
+              'Content-Type: message/rfc822\n\na: b\n', '', '\n', ' ', 'a', ':', 'License:\n\nUnknown:', 'Foo:\n\nBar:\n',
+              'Files: *\nCopyright: 2019 x\nLicense: GPL\n text\n\n\nLicense:\n\n\nFoo:\n\n\nFoo:\n\n\nLicense:']
     import itertools
     kinds = ['License: a', 'License-1: b', 'License:', ' c', '', 'junk', 'Files: *', 'Unknown: u']
     seqs = ['\n'.join(s) for n in range(ctx.n(5, 6) + 1) for s in itertools.product(kinds, repeat=n)]
